@@ -1042,6 +1042,10 @@ public:
     }
 
     if (!is_tracked_region(rhs_rgn, rhs_rgn_info.type_val())) {
+      // the old content of lhs_rgn is overwritten by something unknown
+      if (boost::optional<ghost_variables_t> gvars = get_gvars(lhs_rgn)) {
+        (*gvars).forget(m_base_dom);
+      }
       return;
     }
 
@@ -1116,6 +1120,14 @@ public:
       return;
     }
 
+    // When the content cannot be copied the old content of dst_rgn
+    // is overwritten by something unknown
+    auto forget_dst = [this, &dst_rgn]() {
+      if (boost::optional<ghost_variables_t> gvars = get_gvars(dst_rgn)) {
+        (*gvars).forget(m_base_dom);
+      }
+    };
+
     if (crab_domain_params_man::get().region_allocation_sites()) {
       m_alloc_env.set(dst_rgn, m_alloc_env.at(src_rgn));
     }
@@ -1141,6 +1153,7 @@ public:
       if (!has_dynamic_type(dst_rgn, dst_dyn_type)) {
         // skip assign ghost variables
         crab::CrabStats::count(domain_name() + ".count.region_cast.skipped");
+        forget_dst();
       } else {
         if (type_value(src_rgn.get_type()) <= dst_dyn_type) {
           // make sure dynamic types of src and dst are compatible
@@ -1149,6 +1162,7 @@ public:
           crab::CrabStats::count(
               domain_name() +
               ".count.region_cast.skipped.inconsistent_dynamic_type");
+          forget_dst();
         }
       }
     } else {
@@ -1163,6 +1177,7 @@ public:
       if (!has_dynamic_type(src_rgn, src_rgn_info.type_val())) {
         // skip assign ghost variables
         crab::CrabStats::count(domain_name() + ".count.region_cast.skipped");
+        forget_dst();
       } else {
         if (type_value(dst_rgn.get_type()) <= src_rgn_info.type_val()) {
           // make sure dynamic types of src and dst are compatible
@@ -1171,6 +1186,7 @@ public:
           crab::CrabStats::count(
               domain_name() +
               ".count.region_cast.skipped.inconsistent_dynamic_type");
+          forget_dst();
         }
       }
     }
